@@ -137,7 +137,7 @@ def run_case(spec, ctx):
 
     # element-wise: vector == singletons, also after permutation --------------------------------
     good_y, good_v = y, v
-    for size in (1, 2, 13, min(60, len(good_y))):
+    for size in (1, 2, 13, min(60 if spec['n_rand'] < 100 else 500, len(good_y))):
         idx = rng.choice(len(good_y), size=size, replace=False)
         yy, vv = good_y[idx].copy(), good_v[idx].copy()
         # batches in which all / some V are extreme exercise batch-level shortcuts
